@@ -110,6 +110,8 @@ type pathState struct {
 	FS      []string // recorded file-system / process effects
 	Effects []Effect
 	Queue   map[string][][]engine.Value // programmed stub returns
+	// SyncMaps: contents of sync.Map values, by the address of the sync.Map (model: an ordinary map; no concurrency)
+	SyncMaps map[*engine.Value]*engine.MapObj
 }
 
 // Effect is a recorded call of an environment function.
